@@ -47,7 +47,10 @@ def _case(draw):
             'unit': draw(st.integers(1, 247)), 'kind': k, 'fields': f, 'script': script, 'follow': [k2, f2],
             'serial': draw(transports.serial_options()) if client in ('rtu', 'ascii', 'binary') else {},
             # the judged request is a broadcast write (client built with broadcast_enable=True, unit 0): nobody answers
-            'bcast': draw(st.sampled_from([False] * 6 + [True]))}
+            'bcast': draw(st.sampled_from([False] * 6 + [True])),
+            # before the judged transaction the application issues a request it filled in wrongly (cannot be encoded):
+            # whatever that call does (raise, error object), the client must be ready for the next call
+            'pre_bad': draw(st.sampled_from([None] * 7 + ['value-too-large', 'too-many-registers']))}
 
 
 def strategy(tier):
@@ -191,6 +194,19 @@ def run_case(case):
     nt = any(b[0] not in ('reply',) for b in case['script'])
     with transports.World(peer) as w:
         client = _mk_client(ckind, case, w)
+        if case.get('pre_bad'):
+            from pymodbus.register_write_message import WriteSingleRegisterRequest, WriteMultipleRegistersRequest
+            labels.append('unencodable-request-first')
+            bad = WriteSingleRegisterRequest(1, 0x10000, unit=case['unit']) if case['pre_bad'] == 'value-too-large' else \
+                WriteMultipleRegistersRequest(1, [0] * 200, unit=case['unit'])
+            try:
+                client.execute(bad)
+            except transports.StepBudgetExceeded as e:
+                discs.append(Disc('no-termination', '%s: an unencodable request: %s' % (ckind, e)))
+            except Exception:
+                pass                      # a caller error may raise
+            peer.seq = 0
+            peer.written[:] = []
         if case.get('serial'):
             labels.append('serial-opts:' + ','.join('%s=%s' % kv for kv in sorted(case['serial'].items())))
         t0 = w.clock.t
